@@ -1,11 +1,121 @@
 import ProbLogModel.Sem
+import ProbLogProofs.Lemmas.SemGamma
+import ProbLogProofs.Lemmas.SemRules
+import ProbLogProofs.Lemmas.SemGroupsRun
+import ProbLogProofs.Lemmas.SemRun
 /-!
-# C07 — marginals do not depend on the textual order of the program (property theorems only)
+# C07 — marginals do not depend on the textual order of the program (specification level)
+
+The reference semantics `Sem.run` (least model `gamma`, well-founded model `wfm`, relevance restriction, world
+enumeration) is invariant under permuting the rule list and under permuting the atoms inside the positive and
+inside the negative body of every rule. All statements are unconditional (no well-formedness hypothesis).
 -/
 namespace ProbLogProofs.C07
-open ProbLogModel.Sem
+open ProbLogModel.Sem ProbLogProofs.SemGamma ProbLogProofs.SemRules
 
-/-- Base case kept as a first obligation; the permutation-invariance theorems are added below it. -/
-theorem C07_perm_worlds_nil : (worlds []).length = 1 := rfl
+/-- The least model of the reduct does not depend on the clause order. -/
+theorem C07_perm_clauses_gamma {rules rules' : List Rule} (h : rules.Perm rules') (chosen : Array Bool)
+    (natoms : Nat) (ctx : Array Bool) :
+    gamma rules chosen natoms ctx = gamma rules' chosen natoms ctx :=
+  gamma_congr (REqv.of_perm h).1 (REqv.of_perm h).2 chosen natoms ctx
+
+/-- ... nor on the order of the atoms inside the positive / negative body of each rule. -/
+theorem C07_perm_body {rules rules' : List Rule} (h : BodyPerms rules rules') (chosen : Array Bool)
+    (natoms : Nat) (ctx : Array Bool) :
+    gamma rules chosen natoms ctx = gamma rules' chosen natoms ctx :=
+  gamma_congr (REqv.of_bodyPerms h).1 (REqv.of_bodyPerms h).2 chosen natoms ctx
+
+/-- Strongest form: `gamma` only depends on the *set* of rules, each rule read up to the sets of its body atoms
+    (duplicates of clauses or of body atoms are irrelevant too). -/
+theorem C07_gamma_set_of_rules {rules rules' : List Rule} (h : REqv rules rules') (chosen : Array Bool)
+    (natoms : Nat) (ctx : Array Bool) :
+    gamma rules chosen natoms ctx = gamma rules' chosen natoms ctx :=
+  gamma_congr h.1 h.2 chosen natoms ctx
+
+/-- The well-founded model (alternating fixpoint) does not depend on the clause order. -/
+theorem C07_perm_clauses_wfm {rules rules' : List Rule} (h : rules.Perm rules') (chosen : Array Bool)
+    (natoms : Nat) : wfm rules chosen natoms = wfm rules' chosen natoms :=
+  wfm_congr (REqv.of_perm h) chosen natoms
+
+theorem C07_perm_body_wfm {rules rules' : List Rule} (h : BodyPerms rules rules') (chosen : Array Bool)
+    (natoms : Nat) : wfm rules chosen natoms = wfm rules' chosen natoms :=
+  wfm_congr (REqv.of_bodyPerms h) chosen natoms
+
+/-- The set of relevant atoms does not depend on the clause order. -/
+theorem C07_perm_clauses_relevant {rules rules' : List Rule} (h : rules.Perm rules') (natoms : Nat)
+    (roots : List Nat) : relevantAtoms rules natoms roots = relevantAtoms rules' natoms roots :=
+  relevantAtoms_congr (REqv.of_perm h) natoms roots
+
+/-- The whole result of the reference semantics (evidence probability, every numerator, the number of worlds with a
+    non-two-valued well-founded model, the number of worlds) does not depend on the clause order. -/
+theorem C07_perm_clauses_run (P : Prog) {rules' : List Rule} (h : P.rules.Perm rules') (queries : List Nat)
+    (evidence : List (Nat × Bool)) :
+    run { P with rules := rules' } queries evidence = run P queries evidence :=
+  run_congr_rules P (REqv.of_perm h) queries evidence
+
+/-- ... nor on the order of the atoms inside rule bodies. -/
+theorem C07_perm_body_run (P : Prog) {rules' : List Rule} (h : BodyPerms P.rules rules') (queries : List Nat)
+    (evidence : List (Nat × Bool)) :
+    run { P with rules := rules' } queries evidence = run P queries evidence :=
+  run_congr_rules P (REqv.of_bodyPerms h) queries evidence
+
+/-- The whole result does not depend on the order of the groups (probabilistic facts / annotated disjunctions):
+    the total choices of a permuted group list are the same up to the order inside `chosen`, `run` only uses
+    membership in `chosen`, and its sums are commutative. -/
+theorem C07_perm_groups_run (P : Prog) {gs' : List Group} (h : P.groups.Perm gs') (queries : List Nat)
+    (evidence : List (Nat × Bool)) :
+    run { P with groups := gs' } queries evidence = run P queries evidence :=
+  SemGroupsRun.run_perm_groups P h queries evidence
+
+/-- The order of the evidence statements is irrelevant. -/
+theorem C07_perm_evidence_run (P : Prog) (queries : List Nat) {ev ev' : List (Nat × Bool)} (h : ev.Perm ev') :
+    run P queries ev' = run P queries ev :=
+  SemRun.run_perm_evidence P queries h
+
+/-- The order of the query statements is irrelevant: `z` and the counters are unchanged and every query keeps its
+    numerator (the numerator list is permuted along with the queries). -/
+theorem C07_perm_queries_run (P : Prog) {qs qs' : List Nat} (h : qs.Perm qs') (evidence : List (Nat × Bool)) :
+    (run P qs' evidence).z = (run P qs evidence).z ∧
+    (run P qs' evidence).undefWorlds = (run P qs evidence).undefWorlds ∧
+    (run P qs' evidence).nworlds = (run P qs evidence).nworlds ∧
+    (List.zip qs' (run P qs' evidence).num).Perm (List.zip qs (run P qs evidence).num) := by
+  have hroots : ∀ a, a ∈ qs' ++ evidence.map (·.1) ↔ a ∈ qs ++ evidence.map (·.1) := by
+    intro a; simp only [List.mem_append, h.mem_iff]
+  obtain ⟨h1, h2, h3, h4⟩ := SemRun.roots_congr P hroots evidence
+  rw [SemRun.run_eq_sums, SemRun.run_eq_sums, h1, h2, h3, h4]
+  refine ⟨rfl, rfl, rfl, ?_⟩
+  rw [SemRun.zip_map_self, SemRun.zip_map_self]
+  exact h.symm.map _
+
+/-! ### non-vacuity: `0.3::c0. 0.6::c1. a0 :- c0. a1 :- a0, \+a2. a2 :- c1. a1 :- a2, a0.` -/
+
+def exRules : List Rule :=
+  [⟨0, [], [], some 0⟩, ⟨1, [0], [2], none⟩, ⟨2, [], [], some 1⟩, ⟨1, [2, 0], [], none⟩]
+def exRulesPerm : List Rule :=
+  [⟨1, [2, 0], [], none⟩, ⟨2, [], [], some 1⟩, ⟨1, [0], [2], none⟩, ⟨0, [], [], some 0⟩]
+def exRulesBody : List Rule :=
+  [⟨0, [], [], some 0⟩, ⟨1, [0], [2], none⟩, ⟨2, [], [], some 1⟩, ⟨1, [0, 2], [], none⟩]
+def exProg : Prog := ⟨3, 2, exRules, [⟨[(3/10, 0)]⟩, ⟨[(3/5, 1)]⟩]⟩
+
+example : exRules.Perm exRulesPerm := by decide
+example : BodyPerms exRules exRulesBody :=
+  .cons ⟨rfl, rfl, .refl _, .refl _⟩ (.cons ⟨rfl, rfl, .refl _, .refl _⟩ (.cons ⟨rfl, rfl, .refl _, .refl _⟩
+    (.cons ⟨rfl, rfl, by decide, .refl _⟩ .nil)))
+example : (gamma exRules #[true, false] 3 #[false, false, false]).toList = [true, true, false] := by decide
+example : (gamma exRulesPerm #[true, false] 3 #[false, false, false]).toList = [true, true, false] := by decide
+example : ((wfm exRules #[true, true] 3).1.toList, (wfm exRules #[true, true] 3).2.toList) =
+    ([true, true, true], [true, true, true]) := by decide
+example : (run exProg [1] [(0, true)]).z = 3/10 ∧ (run exProg [1] [(0, true)]).num = [3/10] := by
+  decide +kernel
+example : (run { exProg with rules := exRulesPerm } [1] [(0, true)]).num = [3/10] := by decide +kernel
+
+example : exProg.groups.Perm [⟨[(3/5, 1)]⟩, ⟨[(3/10, 0)]⟩] := List.Perm.swap _ _ _
+example : (run { exProg with groups := [⟨[(3/5, 1)]⟩, ⟨[(3/10, 0)]⟩] } [1] [(0, true)]).num = [3/10] := by
+  decide +kernel
+
+example : [((0 : Nat), true), (2, false)].Perm [(2, false), (0, true)] := List.Perm.swap _ _ _
+example : (run exProg [1] [(2, false), (0, true)]).z = 3/25 ∧ (run exProg [1] [(0, true), (2, false)]).z = 3/25 ∧
+    (run exProg [2, 1] [(0, true)]).num = [9/50, 3/10] ∧ (run exProg [1, 2] [(0, true)]).num = [3/10, 9/50] := by
+  decide +kernel
 
 end ProbLogProofs.C07
